@@ -37,6 +37,13 @@ theorem inv3_srcRet {cfg : Cfg} {s s' : State} (ev : _) (h1' : Inv1 cfg s) (h2' 
   obtain ⟨e1, e2, e2b, e2c, e3, e3b, e3c, e4, h1, h2, h3, r1, r2, r3, d_end2⟩ := hi
   unfold_step at h <;> (repeat' split at h) <;> cases h <;> close_inv3
 
+theorem inv3_srcCancelErr {cfg : Cfg} {s s' : State} (w : _) (h1' : Inv1 cfg s) (h2' : Inv2 cfg s) (hi : Inv3 cfg s)
+    (h : step good cfg s (.srcCancelErr w) = some s') : Inv3 cfg s' := by
+  obtain ⟨c1, t1a, t_set, t_ne, t_len, t_armed, t_fired, n1, n2, u0, u3, u1⟩ := h1'
+  obtain ⟨a1, a2, g1, d_ne, d_wait, d_full, d_end, u2, u4, u5⟩ := h2'
+  obtain ⟨e1, e2, e2b, e2c, e3, e3b, e3c, e4, h1, h2, h3, r1, r2, r3, d_end2⟩ := hi
+  unfold_step at h <;> (repeat' split at h) <;> cases h <;> close_inv3
+
 theorem inv3_nextCall {cfg : Cfg} {s s' : State} (live : _) (h1' : Inv1 cfg s) (h2' : Inv2 cfg s) (hi : Inv3 cfg s)
     (h : step good cfg s (.nextCall live) = some s') : Inv3 cfg s' := by
   obtain ⟨c1, t1a, t_set, t_ne, t_len, t_armed, t_fired, n1, n2, u0, u3, u1⟩ := h1'
@@ -181,6 +188,7 @@ theorem inv3_step {cfg : Cfg} {s s' : State} {l : Label} (h1' : Inv1 cfg s) (h2'
     (h : step good cfg s l = some s') : Inv3 cfg s' := by
   cases l with
   | srcRet ev => exact inv3_srcRet ev h1' h2' hi h
+  | srcCancelErr w => exact inv3_srcCancelErr w h1' h2' hi h
   | nextCall live => exact inv3_nextCall live h1' h2' hi h
   | ctxExpire => exact inv3_ctxExpire h1' h2' hi h
   | tick d => exact inv3_tick d h1' h2' hi h
